@@ -149,6 +149,7 @@ BASE_LIB = {
             {"decl": "class C", "declarations": [
                 {"decl": "C()"},
                 {"decl": "void m(int i)"},
+                {"decl": "void m(double d)"},                     # an overload set beside the constructor (generic bindings)
                 {"decl": "const std::string &name() const"},
             ]},
             {"block": True, "declarations": [
@@ -253,6 +254,7 @@ def relations(ctx, quick):
     # a wrap_* switch on a CLASS also selects the class's own type (not only its members), and on the library the module itself:
     # "container == each child" is claimed for the wrapper selection only where the container is a namespace
     todo = [(c, s) for (c, s) in todo if not s[1].startswith("wrap_") or (c and str(node_at(BASE_LIB, c).get("decl", "")).startswith("namespace"))]
+    todo_all = list(todo)
     if quick:
         # every key once (random container) + a few extra random placements
         byk = {}
@@ -261,6 +263,9 @@ def relations(ctx, quick):
         # every key: once at the library (all functions are below it), once at a random inner container; a few extra placements
         todo = [t for v in byk.values() for t in v if t[0] == []] + [rng.choice([t for t in v if t[0] != []] or v) for v in byk.values()] \
             + rng.sample(todo, 6) + [t for t in todo if t[1][1].startswith("wrap_")]
+        # always: the switches the generator itself writes into a function's options (F_create_generic for constructors, wrap_fortran
+        # in the CFI path), placed on the CLASS: a member's own value must not reach its siblings
+        todo += [t for t in todo_all if str(node_at(BASE_LIB, t[0]).get("decl", "")).startswith("class") and t[1][1] in ("F_create_generic", "F_force_wrapper")]
         todo = list(dict((str(t), t) for t in todo).values())
     from concurrent.futures import ThreadPoolExecutor
 
